@@ -3,10 +3,17 @@
 EXTENDS Watchdog, Json
 CONSTANTS MaxBudget, Rounds
 VARIABLE s
-Mk(b, k, n, j, sy) == [budget |-> b, kind |-> k, n |-> n, j |-> j, sync |-> sy, rounds |-> Rounds, wi |-> 60, ri |-> 30, delay |-> 0]
+Mk(b, k, n, j, sy) == [budget |-> b, kind |-> k, n |-> n, j |-> j, sync |-> sy, rounds |-> Rounds, wi |-> 60, ri |-> 30, delay |-> 0, hsslow |-> FALSE, redial |-> FALSE]
 \* "late": every DWR is answered after `delay` ms, later than the watchdog interval but well inside
 \* the retransmission interval (a configuration with RetransmitInterval > WatchdogInterval)
-Late(b) == [budget |-> b, kind |-> "all", n |-> 0, j |-> 0, sync |-> FALSE, rounds |-> Rounds, wi |-> 30, ri |-> 240, delay |-> 90]
+Late(b) == [budget |-> b, kind |-> "all", n |-> 0, j |-> 0, sync |-> FALSE, rounds |-> Rounds, wi |-> 30, ri |-> 240, delay |-> 90, hsslow |-> FALSE, redial |-> FALSE]
+\* "hsslow": the peer answers only the second CER, RetransmitInterval (120 ms) after the first: the handshake takes
+\* several watchdog intervals (30 ms), and no DWR is due before it has completed
+SlowHS(b) == [Mk(b, "all", 0, 0, FALSE) EXCEPT !.hsslow = TRUE, !.wi = 30, !.ri = 120]
+\* "redial": the same Client has just been used for another connection, whose peer stopped answering and which the
+\* application closed in the middle of a watchdog round (its goroutine may still be around for (budget+1) x 120 ms);
+\* the connection under observation gets its own watchdog all the same
+Redial(b, k) == [Mk(b, k, 0, 0, FALSE) EXCEPT !.redial = TRUE, !.wi = 30, !.ri = 120]
 Init == s \in {Mk(b, "all", 0, 0, sy) : b \in 0..MaxBudget, sy \in BOOLEAN}
          \cup {Mk(b, "stop_after", n, 0, sy) : b \in 0..MaxBudget, n \in 1..2, sy \in BOOLEAN}
          \cup {Mk(b, "only_retx", 0, j, sy) : b \in 1..MaxBudget, j \in 2..(MaxBudget + 1), sy \in BOOLEAN}
@@ -14,6 +21,8 @@ Init == s \in {Mk(b, "all", 0, 0, sy) : b \in 0..MaxBudget, sy \in BOOLEAN}
          \cup {Mk(b, "dup", 0, 0, sy) : b \in 0..MaxBudget, sy \in BOOLEAN}
          \cup {Mk(b, "multi_stop", n, j, sy) : b \in 0..MaxBudget, n \in 1..2, j \in 2..4, sy \in BOOLEAN}
          \cup {Late(b) : b \in 0..1}
+         \cup {SlowHS(b) : b \in 1..MaxBudget}
+         \cup {Redial(b, k) : b \in 1..MaxBudget, k \in {"all", "none"}}
 Next == UNCHANGED s
 Canon == s.kind = "only_retx" => s.j <= s.budget + 1
 \* R1: the expectation is total and bounded
